@@ -87,6 +87,14 @@ def read_job(job):
     res = {}
     held = None
     try:
+        for earlier in job.get('session') or []:
+            # earlier documents of the same configured session: read, then released
+            try:
+                tmp = objectio.read_pil(earlier)
+                tmp = None
+            except Exception as e:
+                e = None
+            gc.collect()
         if job.get('pre'):
             try:
                 held = objectio.read_pil(job['pre'])
